@@ -115,6 +115,14 @@ func TouchGroupMemory(mem map[string]*int, g string) {
 	}
 }
 
+// KeptResourceUse reads a Resource value that a handler of the group kept from an earlier request. A named
+// function so that a race report on it can be recognised (like TouchGroupMemory).
+func KeptResourceUse(r res.Resource) {
+	_ = r.ResourceName()
+	_ = r.PathParams()
+	_ = r.Group()
+}
+
 // ChildMain runs the concurrent program; it is only meaningful in the -race binary.
 func ChildMain(seed int64, rounds int) {
 	rng := rand.New(rand.NewSource(seed))
@@ -157,6 +165,20 @@ func oneRound(seed int64, db *badger.DB, round int) {
 		mem[g] = new(int)
 	}
 	touch := func(g string) { TouchGroupMemory(mem, g) }
+	// per-group state of the handlers: the Resource value of the last request, kept and used later by callbacks of
+	// the same group (nothing in the API says a Resource dies with the request)
+	type slot struct{ r res.Resource }
+	keptOf := map[string]*slot{"test.r.a": {}, "test.r.b": {}}
+	keep := func(r res.Resource) {
+		if sl := keptOf[r.Group()]; sl != nil {
+			sl.r = r
+		}
+	}
+	useKept := func(g string) {
+		if sl := keptOf[g]; sl != nil && sl.r != nil {
+			KeptResourceUse(sl.r)
+		}
+	}
 	ms := mockstore.NewStore()
 	ms.Add("test.ms.1", map[string]interface{}{"n": 1})
 	bs := badgerstore.NewStore(db).SetType(item{}).SetPrefix(fmt.Sprintf("r%d", round))
@@ -169,10 +191,11 @@ func oneRound(seed int64, db *badger.DB, round int) {
 		// a second index whose key most writes leave unchanged
 		AddIndex(badgerstore.Index{Name: "parity", Key: func(v interface{}) []byte { return []byte(fmt.Sprint(len(v.(item).ID) % 2)) }})
 	s.Handle("r.$id",
-		res.Access(func(r res.AccessRequest) { touch(r.Group()); r.AccessGranted() }),
-		res.GetModel(func(r res.ModelRequest) { touch(r.Group()); r.Model(map[string]int{"x": 1}) }),
+		res.Access(func(r res.AccessRequest) { touch(r.Group()); useKept(r.Group()); r.AccessGranted() }),
+		res.GetModel(func(r res.ModelRequest) { touch(r.Group()); useKept(r.Group()); keep(r); r.Model(map[string]int{"x": 1}) }),
 		res.Call("m", func(r res.CallRequest) {
 			touch(r.Group())
+			useKept(r.Group())
 			r.ChangeEvent(map[string]interface{}{"x": 2})
 			r.OK(nil)
 		}),
@@ -364,7 +387,7 @@ func oneRound(seed int64, db *badger.DB, round int) {
 						touch(g)
 					})
 				case 0, 4, 5:
-					s.With(n, func(rs res.Resource) { touch(rs.Group()) })
+					s.With(n, func(rs res.Resource) { touch(rs.Group()); useKept(rs.Group()) })
 				case 1, 6:
 					if rs, err := s.Resource(n); err == nil {
 						g := rs.Group()
@@ -377,6 +400,21 @@ func oneRound(seed int64, db *badger.DB, round int) {
 			}
 		})
 	}
+	// a handler keeps the Resource value of a request; callbacks of the same group use it while requests for
+	// other resources are being served
+	goer(func(r *rand.Rand) {
+		for i := 0; i < 200; i++ {
+			select {
+			case <-stop:
+				return
+			default:
+			}
+			n := []string{"test.r.a", "test.r.b"}[i%2]
+			conn.deliver(inCh, &nats.Msg{Subject: "get." + n, Reply: "inbox.x", Data: []byte(`{"cid":"c1"}`)})
+			s.With(n, func(rs res.Resource) { useKept(rs.Group()) })
+			conn.deliver(inCh, &nats.Msg{Subject: "get.test.g." + []string{"x", "y"}[i%2], Reply: "inbox.x", Data: []byte(`{"cid":"c1"}`)})
+		}
+	})
 	// a hot group: two goroutines submit a few hundred callbacks each to one group as fast as they can, so that
 	// the group's work item lives through long runs of callbacks while new ones keep arriving
 	if round%3 == 1 {
